@@ -8,7 +8,7 @@ checks, na = [], []
 for p in props:
     pid = p["id"]
     L = levels.get(pid, {})
-    if os.path.exists(os.path.join(HERE, "props", pid.lower() + ".py")) and not L.get("not_applicable"):
+    if os.path.exists(os.path.join(HERE, "props", pid.lower() + ".py")) and L.get("text") and not L.get("not_applicable"):
         checks.append({
             "property_id": pid,
             "quick_cmd": f"./check {pid} --tier quick",
